@@ -107,6 +107,189 @@ theorem fresh_cells_default (name : Str) (idx : List Nat) (a : ArrayV F) (h : Ar
       · simp at h
       · split at h <;> simp only [Except.ok.injEq] at h <;> subst h <;> intro c hc <;> exact (List.mem_replicate.mp hc).2
 
+/-! ### FOR / NEXT on whole states -/
+
+theorem alGet_alSet {β : Type} (k : Str) (v : β) (l : List (Str × β)) :
+    alGet k (alSet k v l) = some v := by
+  induction l with
+  | nil => simp [alSet, alGet]
+  | cons p ps ih =>
+    obtain ⟨k', v'⟩ := p
+    by_cases hk : k' = k
+    · simp [alSet, alGet, hk]
+    · have hb : (k' == k) = false := by simpa using hk
+      simp [alSet, alGet, hb, ih]
+
+omit [NumOps F] in
+/-- FOR never tests its limit: when it succeeds the cursor has not moved (the
+    body is what comes next, so it runs at least once), the loop on top of the
+    stack records the position, and the limit and step computed at entry, and
+    the variable holds the start value. -/
+theorem for_enters_body (sym : Str) (a b c : F) (σ σ' : St F)
+    (h : startLoop sym a b c σ = .ok () σ') :
+    σ'.loc = σ.loc ∧
+    (∃ rest, σ'.loops = { loc := σ.loc, sym := sym, toV := b, stepV := c } :: rest) ∧
+    alGet sym σ'.vars = some (.num a) := by
+  cases hr : removeLoop sym σ.loops with
+  | none =>
+    by_cases hcap : σ.loops.length = Extracted.stackLimit
+    · simp [startLoop, bind, M.bindM, M.modify, M.get, hr, hcap, M.fail] at h
+    · have hb : (σ.loops.length == Extracted.stackLimit) = false := by simpa using hcap
+      by_cases hm : (Value.num a : Value F).matchesName sym = true
+      · simp [startLoop, setVar, bind, M.bindM, M.modify, M.get, M.set, hr, hb, hm] at h
+        rw [← h]
+        exact ⟨rfl, ⟨_, rfl⟩, alGet_alSet _ _ _⟩
+      · have hm' : (Value.num a : Value F).matchesName sym = false := by simpa using hm
+        simp [startLoop, setVar, bind, M.bindM, M.modify, M.get, M.set, M.fail, hr, hb, hm'] at h
+  | some p =>
+    obtain ⟨info, rest⟩ := p
+    by_cases hcap : rest.length = Extracted.stackLimit
+    · simp [startLoop, bind, M.bindM, M.modify, M.get, hr, hcap, M.fail] at h
+    · have hb : (rest.length == Extracted.stackLimit) = false := by simpa using hcap
+      by_cases hm : (Value.num a : Value F).matchesName sym = true
+      · simp [startLoop, setVar, bind, M.bindM, M.modify, M.get, M.set, hr, hb, hm] at h
+        rw [← h]
+        exact ⟨rfl, ⟨_, rfl⟩, alGet_alSet _ _ _⟩
+      · have hm' : (Value.num a : Value F).matchesName sym = false := by simpa using hm
+        simp [startLoop, setVar, bind, M.bindM, M.modify, M.get, M.set, M.fail, hr, hb, hm'] at h
+
+/-- the test NEXT makes: against the limit and with the sign of the step that
+    were stored when the FOR was entered -/
+def nextAgain (cur : F) (info : LoopInfo F) : Bool :=
+  if NumOps.ge info.stepV NumOps.zero then NumOps.le (NumOps.add cur info.stepV) info.toV
+  else NumOps.ge (NumOps.add cur info.stepV) info.toV
+
+/-- NEXT uses the stored limit and step: the variable is advanced by the stored
+    step; if the test against the stored limit succeeds the loop stays open
+    (inner loops forgotten) and control goes back to the stored position … -/
+theorem next_uses_stored_again (sym : Str) (σ : St F) (cur : F) (info : LoopInfo F) (rest : List (LoopInfo F))
+    (hv : getVar σ sym = .num cur) (hr : removeLoop sym σ.loops = some (info, rest))
+    (hm : (Value.num (NumOps.add cur info.stepV) : Value F).matchesName sym = true)
+    (hc : nextAgain cur info = true) :
+    endLoop sym σ = .ok ()
+      { σ with loops := info :: rest, loc := info.loc, vars := alSet sym (.num (NumOps.add cur info.stepV)) σ.vars } := by
+  unfold nextAgain at hc
+  simp [endLoop, setVar, bind, M.bindM, M.get, hv, hr, M.set, M.modify, hc, hm]
+
+/-- … otherwise the loop is closed and control falls through. -/
+theorem next_uses_stored_done (sym : Str) (σ : St F) (cur : F) (info : LoopInfo F) (rest : List (LoopInfo F))
+    (hv : getVar σ sym = .num cur) (hr : removeLoop sym σ.loops = some (info, rest))
+    (hm : (Value.num (NumOps.add cur info.stepV) : Value F).matchesName sym = true)
+    (hc : nextAgain cur info = false) :
+    endLoop sym σ = .ok ()
+      { σ with loops := rest, vars := alSet sym (.num (NumOps.add cur info.stepV)) σ.vars } := by
+  unfold nextAgain at hc
+  simp [endLoop, setVar, bind, M.bindM, M.get, hv, hr, M.set, M.modify, hc, hm]
+
+/-- Both cases in one statement. -/
+theorem next_uses_stored (sym : Str) (σ : St F) (cur : F) (info : LoopInfo F) (rest : List (LoopInfo F))
+    (hv : getVar σ sym = .num cur) (hr : removeLoop sym σ.loops = some (info, rest))
+    (hm : (Value.num (NumOps.add cur info.stepV) : Value F).matchesName sym = true) :
+    endLoop sym σ = .ok ()
+      (let newV := NumOps.add cur info.stepV
+       let again := if NumOps.ge info.stepV NumOps.zero then NumOps.le newV info.toV else NumOps.ge newV info.toV
+       if again = true then { σ with loops := info :: rest, loc := info.loc, vars := alSet sym (.num newV) σ.vars }
+       else { σ with loops := rest, vars := alSet sym (.num newV) σ.vars }) := by
+  cases hc : nextAgain cur info with
+  | true =>
+    rw [next_uses_stored_again sym σ cur info rest hv hr hm hc]
+    unfold nextAgain at hc
+    simp only [hc, ↓reduceIte]
+  | false =>
+    rw [next_uses_stored_done sym σ cur info rest hv hr hm hc]
+    unfold nextAgain at hc
+    simp only [hc, Bool.false_eq_true, ↓reduceIte]
+
+/-! ### READ takes DATA in line order -/
+
+omit [NumOps F] in
+theorem listTokens_keys (l : Lines F) (entries : List (Nat × List (Token F)))
+    (h : l.listTokens = some entries) : entries.map (·.1) = l.sorted := by
+  unfold Lines.listTokens at h
+  generalize l.sorted = keys at h
+  induction keys generalizing entries with
+  | nil => simp at h; simp [h]
+  | cons k ks ih =>
+    simp only [List.mapM_cons] at h
+    cases hk : l.get k with
+    | none => simp [hk] at h
+    | some ts =>
+      cases hrest : List.mapM (fun n => Option.map (fun ts => (n, ts)) (l.get n)) ks with
+      | none => simp [hk, hrest] at h
+      | some es =>
+        simp [hk, hrest] at h
+        rw [← h]
+        simp [ih es hrest]
+
+/-- the DATA chunks of one line -/
+def lineChunks (e : Nat × List (Token F)) : List (Loc × List (DataElement F)) :=
+  (e.2.zipIdx).filterMap (fun (t, i) =>
+    match t with
+    | .data items => some ({ line := some e.1, idx := i }, items)
+    | _ => none)
+
+omit [NumOps F] in
+theorem lineChunks_line (e : Nat × List (Token F)) (c : Loc × List (DataElement F))
+    (hc : c ∈ lineChunks e) : c.1.line = some e.1 := by
+  unfold lineChunks at hc
+  obtain ⟨p, _, hp⟩ := List.mem_filterMap.mp hc
+  obtain ⟨t, i⟩ := p
+  cases t <;> simp at hp
+  rw [← hp]
+
+omit [NumOps F] in
+theorem chunks_sorted (entries : List (Nat × List (Token F)))
+    (hs : (entries.map (·.1)).Pairwise (· < ·)) :
+    ∃ ns : List Nat, (entries.flatMap lineChunks).map (·.1.line) = ns.map some ∧
+      ns.Pairwise (· ≤ ·) ∧ ∀ n ∈ ns, n ∈ entries.map (·.1) := by
+  induction entries with
+  | nil => exact ⟨[], by simp, by simp, by simp⟩
+  | cons e es ih =>
+    simp only [List.map_cons, List.pairwise_cons] at hs
+    obtain ⟨ns, h1, h2, h3⟩ := ih hs.2
+    refine ⟨(lineChunks e).map (fun _ => e.1) ++ ns, ?_, ?_, ?_⟩
+    · simp only [List.flatMap_cons, List.map_append, List.map_map, h1]
+      congr 1
+      apply List.map_congr_left
+      intro c hc
+      simpa using lineChunks_line e c hc
+    · rw [List.pairwise_append]
+      refine ⟨?_, h2, ?_⟩
+      · apply List.pairwise_of_forall_mem_list
+        intro a ha b hb
+        obtain ⟨_, _, rfl⟩ := List.mem_map.mp ha
+        obtain ⟨_, _, rfl⟩ := List.mem_map.mp hb
+        exact Nat.le_refl _
+      · intro a ha b hb
+        have : a = e.1 := by
+          obtain ⟨_, _, rfl⟩ := List.mem_map.mp ha; rfl
+        rw [this]
+        exact Nat.le_of_lt (hs.1 b (h3 b hb))
+    · intro n hn
+      rcases List.mem_append.mp hn with hn | hn
+      · obtain ⟨_, _, rfl⟩ := List.mem_map.mp hn
+        simp
+      · simp only [List.map_cons, List.mem_cons]; exact .inr (h3 n hn)
+
+omit [NumOps F] in
+/-- READ consumes DATA in line order: the chunks `data_iterator` yields carry
+    numbered-line locations whose line numbers never decrease (and are stored
+    line numbers). -/
+theorem read_line_order (l : Lines F) (chunks : List (Loc × List (DataElement F)))
+    (hs : l.sorted.Pairwise (· < ·)) (h : Lines.dataChunks l = some chunks) :
+    ∃ ns : List Nat, chunks.map (·.1.line) = ns.map some ∧ ns.Pairwise (· ≤ ·) ∧ ∀ n ∈ ns, n ∈ l.sorted := by
+  unfold Lines.dataChunks at h
+  cases he : l.listTokens with
+  | none => simp [he] at h
+  | some entries =>
+    have hk := listTokens_keys l entries he
+    simp only [he, Option.map_some, Option.some.injEq] at h
+    rw [← hk] at hs ⊢
+    have := chunks_sorted entries hs
+    rw [← h]
+    exact this
+
+
 /-- Non-vacuity: a two-loop stack where NEXT of the outer variable forgets the inner one. -/
 example : (removeLoop (F := Unit) ['I'] [{ loc := {}, sym := ['J'], toV := (), stepV := () },
                                           { loc := {}, sym := ['I'], toV := (), stepV := () }]).isSome = true := by
